@@ -154,6 +154,23 @@ def run(ctx):
             S.add((rng.randrange(-lim, lim + 1), rng.randrange(-lim, lim + 1)))
         L = list(S)
         rng.shuffle(L)
+        if rng.random() < 0.3:
+            # several points on each of a few RAYS from the lowest-leftmost point (every slope sign, the vertical included): the angular
+            # sort's tie-break (nearer first) and the collinear pops decide the result here
+            dirs = rng.sample([(0, 1), (1, 2), (1, 1), (2, 1), (1, 0), (2, -1), (1, -1), (1, -2), (0, -1)][:8], rng.randrange(2, 5))
+            S = {(0, 0)}
+            for dx_, dy_ in dirs:
+                for m_ in rng.sample(range(1, 6), rng.randrange(2, 5)):
+                    S.add((dx_ * m_, dy_ * m_))
+            for _e in range(rng.randrange(0, 3)):
+                S.add((rng.randrange(1, 6), rng.randrange(-5, 6)))
+            # the pivot is the lexicographic minimum: shift so that (0,0) is it (all other points have x >= 0; those with x == 0 must lie above)
+            S = {(a_, b_) for a_, b_ in S if a_ > 0 or (a_ == 0 and b_ >= 0)}
+            L = list(S)
+            rng.shuffle(L)
+            if len(L) < 3:
+                continue
+            lim = 'rays'
         P_ = np.array(L, float)
         u = rng.random()
         tag = ''
